@@ -18,7 +18,7 @@ MANIFEST = {
     "design_ref": "DESIGN.md §5 C09",
 }
 EXPLANATION = MANIFEST["level_text"]
-TRUSTED = ["pyvc VC generator and regex translation (re._parser -> SMT regex)", "z3 5.1.0 / cvc5 1.0.3"]
+TRUSTED = ["pyvc VC generator and regex translation (re._parser -> SMT regex)", "z3 5.1.0 / cvc5 1.4.0"]
 ASSUMPTIONS = [
     "strings range over code points 0..0x2FFFF (z3 character range)",
     "UTF-8 decode: identity on ASCII, otherwise an uninterpreted total function guarded by a validity predicate; a non-ASCII string is never canonical so only the ASCII case matters for acceptance",
